@@ -213,7 +213,13 @@ def spell(world, op, cwd, root_abs):
     }
     base = anchors[p["start"]]
     full = base
+    segs = []
     for s in p["segs"]:
+        if s == "@root":
+            # "back into the root by name" from wherever the spelling has lexically got to (a detour through
+            # directories that may not exist physically)
+            s = os.path.relpath(root_abs, os.path.normpath(full))
+        segs.append(s)
         if s == "":
             full = full + "/"
         else:
@@ -221,7 +227,7 @@ def spell(world, op, cwd, root_abs):
     if p["abs"]:
         return full
     rel = os.path.relpath(os.path.normpath(base), cwd)
-    tail = "/".join(p["segs"])
+    tail = "/".join(segs)
     spelled = rel + ("/" + tail if tail else "")
     return spelled
 
@@ -344,7 +350,9 @@ def run_one(spec: dict) -> dict:
                     f"-> 200 although {os.path.relpath(lexical_target, world.W)} is outside: {text[:300]}")
         # --- response-based checks (independent of how the request was spelled): whatever a 200 answer serves
         # must come from under the root in force, whether or not it carries a marker (e.g. /etc/hostname)
-        if status == 200 and viol[0] is None:
+        # (a root in force that is not inside the scratch world - a relative root re-resolved after a chdir can be an
+        # ancestor of it, up to "/" - permits whatever lies below it: nothing to check, and walking it would read the disk)
+        if status == 200 and viol[0] is None and all(under(r, world.W) for r in allowed_roots):
             def files_under(roots):
                 out = set()
                 for r in roots:
@@ -640,6 +648,14 @@ def gen_path(g, inside_bias=True, any_root=False):
         start, segs = g.choice([("origroot", ["a.sql"]), ("origroot", ["sub", "b.sql"]), ("origroot", []), ("root2", ["r2.sql"]), ("root2", []),
                                 ("root2", ["inner", "i.sql"]), ("sub", ["b.sql"]), ("sub", []), ("sub", ["deep", "c.sql"]), ("origroot", ["sub"])])
         return {"start": start, "segs": list(segs), "abs": True}
+    if inside_bias and r > 0.93:
+        # detour: out of the root into a directory that exists, on through an entry that is missing (or a regular
+        # file), back up with ".." and into the root again BY NAME, ending at a lexically inside location
+        start, ghosts = g.choice([("outside", ["ghost", "o.sql", "more/ghost"]), ("sibling", ["ghost", "s.sql"]), ("root2", ["ghost", "r2.sql", "inner/ghost"]),
+                                  ("static", ["ghost", "index.html"]), ("cwd", ["ghost", "rel.sql"]), ("W", ["ghost"])])
+        gh = g.choice(ghosts).split("/")
+        tail = g.choice([["a.sql"], ["gone", "q.sql"], ["sub", "gone", "q.sql"], ["sub", "b.sql"], ["sub"], [], ["gone"], ["a.sql", "x"]])
+        return {"start": start, "segs": gh + [".."] * len(gh) + ["@root"] + list(tail), "abs": g.random() < 0.7}
     if inside_bias and r < 0.5:
         start = "root"
         segs = g.choice([["a.sql"], ["sub", "b.sql"], ["sub/deep/c.sql"], ["sub"], [], ["."], ["sub", "..", "a.sql"], ["sub", "deep", "..", "b.sql"], ["", "a.sql"], ["./a.sql"]])
